@@ -813,3 +813,21 @@ fn compute_quotient_polys<
         .map(|values| values.coset_ifft(F::coset_shift()))
         .collect()
 }
+
+/// Read-only wrapper around the private `compute_lookup_polys` (verification harness hook).
+#[cfg(feature = "verif_hooks")]
+pub fn verif_compute_lookup_polys<
+    F: RichField + Extendable<D>,
+    C: GenericConfig<D, F = F>,
+    const D: usize,
+>(
+    witness: &MatrixWitness<F>,
+    deltas: &[F; 4],
+    prover_data: &ProverOnlyCircuitData<F, C, D>,
+    common_data: &CommonCircuitData<F, D>,
+) -> Vec<Vec<F>> {
+    compute_lookup_polys(witness, deltas, prover_data, common_data)
+        .into_iter()
+        .map(|p| p.values)
+        .collect()
+}
